@@ -124,8 +124,19 @@ func execC02Bubble(r *kernel.Run, s C02Spec) {
 		}
 		r.Eval(1)
 		r.Fault(kind)
-		o := live[orig]
-		same := tupleString(context, nonce, issig, ks, proofs) == tupleString(o.Sess.Context, o.Sess.Nonce, o.Sess.IsSig, o.Sess.Keys, proofStrs[orig])
+		// "same" = this exact list was built for exactly this tuple, in the session it comes from or in any
+		// other live session (with contexts and nonces as small as 0 and 1 two sessions can share their whole
+		// tuple; a one-proof list moved between them is then simply the other session's own list)
+		same := false
+		delivered := tupleString(context, nonce, issig, ks, proofs)
+		for li, o := range live {
+			if delivered == tupleString(o.Sess.Context, o.Sess.Nonce, o.Sess.IsSig, o.Sess.Keys, proofStrs[li]) {
+				same = true
+				if li != orig {
+					r.Probe("alteration-yields-another-sessions-own-list")
+				}
+			}
+		}
 		wire := []byte("[" + strings.Join(proofs, ",") + "]")
 		v := verifyWire(wire, Session{Context: context, Nonce: nonce, IsSig: issig, Keys: ks})
 		if v.Panic != "" {
